@@ -2171,3 +2171,128 @@ Proof.
   intros E Hop Hos. destruct (list_refines_spec _ _ _ _ E) as (s & Er & _). rewrite Er in Hos. cbn [fst] in Hos.
   eapply list_panics; eauto.
 Qed.
+
+(* ---- audit round: located panics, PushFrontList values ---- *)
+Lemma bind_Ok {A B} (r : result A) (f : A -> result B) b : bind r f = Ok b -> exists a, r = Ok a /\ f a = Ok b.
+Proof. destruct r; simpl; [eauto|discriminate]. Qed.
+
+Lemma exec_Ok_not_panic op rs o rs' : exec op rs = Ok (o, rs') -> forall k, o <> OPanic k.
+Proof.
+  intros E k. unfold exec, ret_ptr, ret_unit in E.
+  destruct op;
+  repeat match goal with
+         | H : (let (_, _) := ?p in _) = Ok _ |- _ => destruct p
+         | H : bind _ _ = Ok _ |- _ => apply bind_Ok in H as (? & ? & H)
+         | H : (let '(_, _) := ?p in _) = Ok _ |- _ => destruct p
+         | x : (_ * _)%type |- _ => destruct x
+         end; try (injection E as <- _; discriminate).
+Qed.
+
+Lemma spec_run_from_app l1 : forall a h l2,
+  spec_run_from a h (l1 ++ l2) =
+  let '(os1, a1, h1, ok1) := spec_run_from a h l1 in
+  let '(os2, a2, h2, ok2) := spec_run_from a1 h1 l2 in
+  (os1 ++ os2, a2, h2, ok1 && ok2).
+Proof.
+  induction l1 as [|op t IH]; intros a h l2; cbn [app spec_run_from].
+  - destruct (spec_run_from a h l2) as [[[os2 a2] h2] ok2]. reflexivity.
+  - destruct (spec_exec op a h) as [[o a1] h1]. rewrite IH.
+    destruct (spec_run_from a1 h1 t) as [[[os1 a2] h2] ok1].
+    destruct (spec_run_from a2 h2 l2) as [[[os2 a3] h3] ok2].
+    rewrite andb_assoc. reflexivity.
+Qed.
+
+Lemma run_from_app l1 : forall rs l2,
+  run_from rs (l1 ++ l2) =
+  let (os1, rs1) := run_from rs l1 in
+  let (os2, rs2) := run_from rs1 l2 in (os1 ++ os2, rs2).
+Proof.
+  induction l1 as [|op t IH]; intros rs l2; cbn [app run_from].
+  - destruct (run_from rs l2). reflexivity.
+  - destruct (step op rs) as [o rs1]. rewrite IH.
+    destruct (run_from rs1 t) as [os1 rs2]. destruct (run_from rs2 l2) as [os2 rs3]. reflexivity.
+Qed.
+
+Lemma spec_run_from_length ops : forall a h, length (fst (fst (fst (spec_run_from a h ops)))) = length ops.
+Proof.
+  induction ops as [|op t IH]; intros a h; cbn [spec_run_from]; [reflexivity|].
+  destruct (spec_exec op a h) as [[o a1] h1]. specialize (IH a1 h1).
+  destruct (spec_run_from a1 h1 t) as [[[os a2] h2] ok]. cbn [fst length] in *. lia.
+Qed.
+
+Lemma nth_error_split {A} (l : list A) i x : nth_error l i = Some x ->
+  l = firstn i l ++ x :: skipn (S i) l /\ length (firstn i l) = i.
+Proof.
+  revert i; induction l as [|y t IH]; intros [|i] H; simpl in *; try discriminate.
+  - injection H as ->. auto.
+  - destruct (IH i H) as [E L]. split; [f_equal; exact E|f_equal; exact L].
+Qed.
+
+Lemma panic_state_nil op rs : nil_arg op (hs rs) = true -> panic_state op rs = rs.
+Proof. destruct op; cbn [nil_arg panic_state]; try discriminate; reflexivity. Qed.
+
+(* A panic in a covered history, located: in the state the prefix before it has reached, the
+   call has a nil element argument, the panic is a nil dereference, and the call changes
+   neither the abstract state nor the heap nor the handle table. *)
+Theorem list_panics_located ops os a h i op k :
+  spec_run ops = (os, a, h, true) ->
+  nth_error ops i = Some op -> nth_error (fst (run ops)) i = Some (OPanic k) ->
+  exists os1 a1 h1 s1,
+    spec_run (firstn i ops) = (os1, a1, h1, true) /\ run (firstn i ops) = (os1, RState s1 h1) /\ Rep s1 a1 /\
+    k = NilDeref /\ nil_arg op h1 = true /\
+    spec_exec op a1 h1 = (OPanic NilDeref, a1, h1) /\
+    step op (RState s1 h1) = (OPanic NilDeref, RState s1 h1).
+Proof.
+  intros E Hop Hos. destruct (nth_error_split _ _ _ Hop) as [Eops Li].
+  set (pre := firstn i ops) in *. set (post := skipn (S i) ops) in *.
+  unfold spec_run in E. rewrite Eops, spec_run_from_app in E.
+  destruct (spec_run_from init_astate [] pre) as [[[os1 a1] h1] ok1] eqn:E1.
+  cbn [spec_run_from] in E.
+  destruct (spec_exec op a1 h1) as [[o a2] h2] eqn:Eop.
+  destruct (spec_run_from a2 h2 post) as [[[os3 a3] h3] ok3] eqn:E3.
+  injection E as _ _ _ Eok. apply andb_true_iff in Eok as [-> Eok]. apply andb_true_iff in Eok as [OK _].
+  destruct (run_from_sim pre _ _ [] _ _ _ Rep_init (fun e (I : In e []) => match I with end) E1) as (s1 & Er & R1 & HK1).
+  destruct (exec_sim op s1 a1 h1 R1 HK1 OK) as (s' & Es & _ & _). rewrite Eop in Es. cbn [fst snd] in Es.
+  (* the output at position i is the output of this step *)
+  assert (Lo : length os1 = i).
+  { pose proof (spec_run_from_length pre init_astate []) as L. rewrite E1 in L. cbn [fst] in L. lia. }
+  unfold run in Hos. rewrite Eops, run_from_app in Hos. fold init_rstate in Er. unfold init_rstate in *. rewrite Er in Hos.
+  cbn [run_from] in Hos. rewrite Es in Hos.
+  destruct (run_from (RState s' h2) post) as [os4 rs4]. cbn [fst] in Hos.
+  rewrite nth_error_app2, Lo, Nat.sub_diag in Hos by lia. cbn in Hos. injection Hos as ->.
+  destruct (spec_panic op a1 h1 k) as (-> & N & S); [rewrite Eop; reflexivity|].
+  rewrite Eop in S. injection S as -> ->.
+  exists os1, a1, h1, s1. unfold spec_run, run, init_rstate. rewrite Er.
+  repeat (split; auto).
+  unfold step in *. destruct (exec op (RState s1 h1)) as [[o' rs']|k'] eqn:Ex.
+  - injection Es as -> _. exfalso. eapply exec_Ok_not_panic; eauto.
+  - injection Es as -> _. rewrite panic_state_nil; auto.
+Qed.
+
+(* PushFrontList (also of a list onto itself): fresh cells carrying the old values of o, in o's
+   order, are placed in front of the old contents; the copy of o's last element is made first,
+   so it has the smallest id; no other list changes. *)
+Theorem pushfrontlist_values s a l o :
+  Rep s a -> l < length (a_lists a) -> o < length (a_lists a) ->
+  exists s' a', list_PushFrontList l o s = Ok s' /\ Rep s' a' /\
+    a_seq a' l = rev (seq (fresh a) (length (a_seq a o))) ++ a_seq a l /\
+    map (a_val a') (a_seq a' l) = map (a_val a) (a_seq a o) ++ map (a_val a) (a_seq a l) /\
+    (forall l', l' <> l -> a_seq a' l' = a_seq a l').
+Proof.
+  intros R Hl Ho. destruct (nth_error_lt_exists _ _ Hl) as ([r ol] & H).
+  destruct (PushFrontList_sim _ _ _ _ _ _ R H Ho) as (s' & E & R').
+  eexists. eexists. split; [exact E|]. split; [exact R'|].
+  assert (Hl' : l < length (a_lists (a_alloc_copies a (rev (a_seq a o))))) by exact Hl.
+  assert (Sq : a_seq (a_set (a_alloc_copies a (rev (a_seq a o))) l (rev (copies a (a_seq a o)) ++ a_seq a l)) l =
+               rev (copies a (a_seq a o)) ++ a_seq a l).
+  { rewrite a_seq_a_set, Nat.eqb_refl; auto. }
+  split; [exact Sq|]. split.
+  - rewrite Sq, map_app. f_equal.
+    + rewrite map_rev. unfold copies, fresh, a_val, a_set, a_alloc_copies; cbn [a_vals].
+      rewrite <- (rev_length (a_seq a o)).
+      rewrite <- (map_length (fun e => nth e (a_vals a) 0%Z) (rev (a_seq a o))).
+      rewrite map_a_val_seq, map_rev, rev_involutive. reflexivity.
+    + apply map_ext_in. intros x Ix. unfold a_val, a_set, a_alloc_copies; cbn [a_vals].
+      apply app_nth1. rewrite <- (Rep_size _ _ R). eapply a_seq_owned_lt; eauto.
+  - intros l' N. rewrite a_seq_a_set by auto. apply Nat.eqb_neq in N. rewrite N. reflexivity.
+Qed.
